@@ -254,10 +254,72 @@ def evaluate(case) -> Result:
         w.close()
 
 
+def install_points():
+    from dv import sched, simkernel as sk
+    mods = sk.load_node()
+    N = mods["node"].Node
+    return sched.install({N._record_answer: None, N._receive_message: r"_origin_waiting_answer"})
+
+
+def same_ids_two_connections(decisions, kind="DWR"):
+    """Two connections receive, in the same instant, requests with the same hop-by-hop and end-to-end identifiers
+    (both are unique per connection / per origin only): the two reader threads answer concurrently.  One schedule."""
+    from dv import sched
+    w = W.NodeWorld({"peers": [{"name": f"peer{i + 1}.example", "ip": [f"10.1.1.{i + 1}"]} for i in range(2)],
+                     "apps": [{"app_id": 4, "auth": True, "peers": [0, 1], "handler": "answer"}],
+                     "node_timers": {"idle": 5000, "dwa": 50, "cer": 50, "cea": 50, "wakeup": 5}})
+    try:
+        w.start()
+        conns = [w.handshake_in(f"peer{i + 1}.example", auth=[4], ip=f"10.1.1.{i + 1}", hbh=0x100 + i) for i in range(2)]
+        ex = sched.Explorer(decisions)
+        sched.attach(w.k, ex)
+        for i, c in enumerate(conns):
+            w.feed_msg(c, {"k": kind, "host": f"peer{i + 1}.example", "hbh": 0x4242, "e2e": 0x4242}, run=False)
+        ex.armed = True
+        w.k.run()
+        ex.armed = False
+        w.advance(1)
+        problems = [(k_, f"conn {ci}: {d}") for k_, ci, d in W.monitor_answers(w)]
+        for i, c in enumerate(conns):
+            n = len([f for f in c.refresh() if not f.is_request and f.h["hbh"] == 0x4242])
+            if n != 1:
+                problems.append(("answer-count", f"conn {i}: {n} answers for its one request"))
+        for sig, d in W.monitor_threads(w):
+            problems.append((f"thread-died/{sig}", d))
+        return ex.trace, problems
+    finally:
+        w.close()
+
+
+def schedule_part(rec, shard, nshards, thorough):
+    from dv import sched
+    from dv.common import fp
+    info = install_points()
+    if shard == 0:
+        rec.extra["preemption_functions"] = info
+    for kind in ("DWR", "REQ"):
+        holder = {}
+
+        def run_one(dec, kind=kind):
+            tr, problems = same_ids_two_connections(dec, kind)
+            holder["last"] = problems
+            return tr
+        n = 0
+        for dec, trace in sched.enumerate_schedules(run_one, 3 if thorough else 2, shard, nshards):
+            case = {"same_ids_two_connections": kind, "schedule": {str(i): c for i, c in sorted(dec.items())}}
+            for k_, detail in holder["last"]:
+                rec.violation(f"C07/concurrent-same-ids/{k_}", case, detail)
+            n += 1
+            rec.case(fp("sched", kind, tuple(sorted(dec.items()))) if dec else None, ["schedule-exploration", f"deviations:{len(dec)}"],
+                     sample=lambda: dict(case, choice_points=len(trace)))
+        rec.extra["same_ids_schedules"] = rec.extra.get("same_ids_schedules", 0) + n
+
+
 def shard_main(shard, nshards, tier, scale):
     rec = Recorder(PID)
     thorough = tier == "thorough"
     shrunk = set()
+    schedule_part(rec, shard, nshards, thorough)
     jobs = []
     depth = 3 if thorough else 2
     core = [s for s in SYMS if s != "HS"]
@@ -307,10 +369,24 @@ def run(tier, scale=1.0):
     rec = Recorder(PID)
     for d in hyp.pool_run(shard_main, (tier, scale)):
         rec.merge(d)
-    required = {f"sym:{s}": 1 for s in SYMS} | {"dup-avp:264:untyped": 1, "dup-avp:283:untyped": 1, "dup-avp:264:typed": 1, "ids:zero-hbh": 1, "ids:zero-e2e": 1, "ids:both-zero": 1, "nconn:3": 1, "app:threading": 1, "out0:True": 1, "defective": 1}
+    required = {f"sym:{s}": 1 for s in SYMS} | {"schedule-exploration": 1, "dup-avp:264:untyped": 1, "dup-avp:283:untyped": 1, "dup-avp:264:typed": 1, "ids:zero-hbh": 1, "ids:zero-e2e": 1, "ids:both-zero": 1, "nconn:3": 1, "app:threading": 1, "out0:True": 1, "defective": 1}
     return finish(rec, tier=tier, level="exploration", rule=RULE, assumptions=ASSUME, t0=t0,
                   required_classes=required)
 
 
 def replay(doc):
+    if "same_ids_two_connections" in doc["case"]:
+        install_points()
+        _, problems = same_ids_two_connections({int(i): c for i, c in doc["case"]["schedule"].items()}, doc["case"]["same_ids_two_connections"])
+        sigs = [f"C07/concurrent-same-ids/{k}" for k, _ in problems]
+        if doc["signature"] in sigs:
+            print(f"  replayed: {problems[0][1][:300]}")
+            print(f"VIOLATION property={PID} replay=(replay)")
+            return 1
+        print(f"[{PID}] replay: signature {doc['signature']} does not reproduce (got {sigs})")
+        return 0
+    return _replay_history(doc)
+
+
+def _replay_history(doc):
     return generic_replay(PID, evaluate, doc)
